@@ -485,8 +485,6 @@ func (queue *Queue) Delete(ifUnused bool, ifEmpty bool) (uint64, error) {
 	defer queue.cmrLock.Unlock()
 	defer queue.SafeQueue.Unlock()
 
-	queue.active = false
-
 	if ifUnused && len(queue.consumers) != 0 {
 		return 0, errors.New("queue has consumers")
 	}
@@ -494,6 +492,8 @@ func (queue *Queue) Delete(ifUnused bool, ifEmpty bool) (uint64, error) {
 	if ifEmpty && queue.SafeQueue.DirtyLength() != 0 {
 		return 0, errors.New("queue has messages")
 	}
+
+	queue.active = false
 
 	queue.cancelConsumers()
 	length := uint64(atomic.LoadInt64(&queue.queueLength))
